@@ -37,13 +37,22 @@ pub enum Weights {
 #[derive(Clone, Debug, Serialize, Deserialize)]
 pub enum Case {
     /// points = centre + sum_k coords[i][k] * stretch[k] * axis_k (axes from a pose); rank = number of non-zero stretches
-    Svd3 { coords: Vec<P3>, stretch: P3, pose: Iso3D, offset: P3, weights: Weights, scale_w: f64, t: Iso3D },
-    Svd2 { coords: Vec<P2>, stretch: P2, pose: Iso2D, offset: P2, weights: Weights, scale_w: f64, t: Iso2D },
+    Svd3 { coords: Vec<P3>, stretch: P3, pose: Iso3D, offset: P3, weights: Weights, scale_w: f64, t: Iso3D, #[serde(default = "one")] unit: F },
+    Svd2 { coords: Vec<P2>, stretch: P2, pose: Iso2D, offset: P2, weights: Weights, scale_w: f64, t: Iso2D, #[serde(default = "one")] unit: F },
     Frame { which: u8, a: P3, la: f64, angle: f64, roll: f64, lb: f64, origin: Option<P3>, degenerate: u8 },
     Xyo { a: P3, angle: f64, roll: f64, origin: P3 },
     Basis2 { ang: f64, len: f64, origin: P2 },
     PlaneTriple { p: P3, q: P3, r: P3, x: P3 },
     PlaneNormal { n: P3, p: P3, x: P3, spn: P3 },
+}
+
+fn one() -> F {
+    F(1.0)
+}
+
+/// overall length unit of a point set (metres vs microns): every clause is relative, so the answer may not depend on it
+fn unit() -> BoxedStrategy<F> {
+    prop_oneof![5 => Just(F(1.0)), 3 => logu(-8.0, 3.0).prop_map(F)].boxed()
 }
 
 fn weights(n: usize) -> BoxedStrategy<Weights> {
@@ -70,8 +79,8 @@ impl Property for C19 {
     fn strategy(_t: Tier) -> BoxedStrategy<Case> {
         let stretch3 = prop_oneof![4 => (logu(-1.0, 1.0), logu(-1.0, 1.0), logu(-1.0, 1.0)).prop_map(|(a, b, c)| [a, b, c]), 1 => (logu(-3.0, 3.0), logu(-3.0, 3.0), logu(-3.0, 3.0)).prop_map(|(a, b, c)| [a, b, c]), 2 => (logu(-1.0, 1.0), logu(-1.0, 1.0), prop::sample::select(vec![0u8, 1, 2, 3])).prop_map(|(a, b, z)| match z { 0 => [a, b, 0.0], 1 => [a, 0.0, 0.0], 2 => [0.0, 0.0, 0.0], _ => [0.0, b, a] })];
         let stretch2 = prop_oneof![4 => (logu(-1.0, 1.0), logu(-1.0, 1.0)).prop_map(|(a, b)| [a, b]), 1 => (logu(-3.0, 3.0), logu(-3.0, 3.0)).prop_map(|(a, b)| [a, b]), 1 => logu(-1.0, 1.0).prop_map(|a| [a, 0.0]), 1 => Just([0.0, 0.0])];
-        let svd3 = (4usize..120).prop_flat_map(move |n| (prop::collection::vec(p3(1.0), n), stretch3.clone(), iso3(0.0), p3(1000.0), weights(n), logu(-1.0, 1.0), iso3(100.0))).prop_map(|(coords, stretch, pose, offset, weights, scale_w, t)| Case::Svd3 { coords, stretch, pose, offset, weights, scale_w, t });
-        let svd2 = (3usize..120).prop_flat_map(move |n| (prop::collection::vec(p2(1.0), n), stretch2.clone(), iso2(0.0), p2(1000.0), weights(n), logu(-1.0, 1.0), iso2(100.0))).prop_map(|(coords, stretch, pose, offset, weights, scale_w, t)| Case::Svd2 { coords, stretch, pose, offset, weights, scale_w, t });
+        let svd3 = (4usize..120).prop_flat_map(move |n| (prop::collection::vec(p3(1.0), n), stretch3.clone(), iso3(0.0), p3(1000.0), weights(n), logu(-1.0, 1.0), iso3(100.0), unit())).prop_map(|(coords, stretch, pose, offset, weights, scale_w, t, unit)| Case::Svd3 { coords, stretch, pose, offset, weights, scale_w, t, unit });
+        let svd2 = (3usize..120).prop_flat_map(move |n| (prop::collection::vec(p2(1.0), n), stretch2.clone(), iso2(0.0), p2(1000.0), weights(n), logu(-1.0, 1.0), iso2(100.0), unit())).prop_map(|(coords, stretch, pose, offset, weights, scale_w, t, unit)| Case::Svd2 { coords, stretch, pose, offset, weights, scale_w, t, unit });
         let frame = (0u8..6, unit3(), logu(-3.0, 3.0), prop_oneof![4 => unif(0.05, 3.09), 1 => logu(-6.0, -1.0), 1 => logu(-6.0, -1.0).prop_map(|x| std::f64::consts::PI - x)], unif(0.0, 6.2832), logu(-3.0, 3.0), prop::option::of(p3(1000.0)), prop_oneof![8 => Just(0u8), 1 => Just(1u8), 1 => Just(2u8), 1 => Just(3u8)])
             .prop_map(|(which, a, la, angle, roll, lb, origin, degenerate)| Case::Frame { which, a, la, angle, roll, lb, origin, degenerate });
         prop_oneof![
@@ -87,30 +96,36 @@ impl Property for C19 {
     }
     fn check(case: &Case) -> Verdict {
         match case {
-            Case::Svd3 { coords, stretch, pose, offset, weights, scale_w, t } => {
+            Case::Svd3 { coords, stretch, pose, offset, weights, scale_w, t, unit } => {
+                let u = unit.0;
                 let r = pose.to_iso().rotation;
                 let axes = [r * Vector3::x(), r * Vector3::y(), r * Vector3::z()];
-                let pts: Vec<Point<f64, 3>> = coords.iter().map(|c| Point3::new(offset[0], offset[1], offset[2]) + axes[0] * (c[0] * stretch[0]) + axes[1] * (c[1] * stretch[1]) + axes[2] * (c[2] * stretch[2])).collect();
+                let pts: Vec<Point<f64, 3>> = coords.iter().map(|c| (Point3::new(offset[0], offset[1], offset[2]) + axes[0] * (c[0] * stretch[0]) + axes[1] * (c[1] * stretch[1]) + axes[2] * (c[2] * stretch[2])) * u).collect();
                 let known_rank = stretch.iter().filter(|s| **s != 0.0).count();
-                let iso = t.to_iso();
+                let mut iso = t.to_iso();
+                iso.translation.vector *= u;
                 let moved: Vec<Point<f64, 3>> = pts.iter().map(|p| iso * p).collect();
                 let rot = |v: &SVector<f64, 3>| iso.rotation * v;
                 let mut cx = Ctx::new();
                 cx.label("svd3");
                 let generic_pose = pose.is_generic() || pose.angle.abs() > 1e-3;
-                svd::<3>(cx, &pts, known_rank, weights, *scale_w, &moved, &rot, generic_pose, stretch.iter().cloned().fold(0.0, f64::max))
+                cx.label_if(u < 1e-4, "unit_below_1e-4");
+                svd::<3>(cx, &pts, known_rank, weights, *scale_w, &moved, &rot, generic_pose, u * stretch.iter().cloned().fold(0.0, f64::max))
             }
-            Case::Svd2 { coords, stretch, pose, offset, weights, scale_w, t } => {
+            Case::Svd2 { coords, stretch, pose, offset, weights, scale_w, t, unit } => {
+                let u = unit.0;
                 let r = pose.to_iso().rotation;
                 let axes = [r * engeom::Vector2::x(), r * engeom::Vector2::y()];
-                let pts: Vec<Point<f64, 2>> = coords.iter().map(|c| engeom::Point2::new(offset[0], offset[1]) + axes[0] * (c[0] * stretch[0]) + axes[1] * (c[1] * stretch[1])).collect();
+                let pts: Vec<Point<f64, 2>> = coords.iter().map(|c| (engeom::Point2::new(offset[0], offset[1]) + axes[0] * (c[0] * stretch[0]) + axes[1] * (c[1] * stretch[1])) * u).collect();
                 let known_rank = stretch.iter().filter(|s| **s != 0.0).count();
-                let iso = t.to_iso();
+                let mut iso = t.to_iso();
+                iso.translation.vector *= u;
                 let moved: Vec<Point<f64, 2>> = pts.iter().map(|p| iso * p).collect();
                 let rot = |v: &SVector<f64, 2>| iso.rotation * v;
                 let mut cx = Ctx::new();
                 cx.label("svd2");
-                svd::<2>(cx, &pts, known_rank, weights, *scale_w, &moved, &rot, pose.angle.abs() > 1e-3, stretch.iter().cloned().fold(0.0, f64::max))
+                cx.label_if(u < 1e-4, "unit_below_1e-4");
+                svd::<2>(cx, &pts, known_rank, weights, *scale_w, &moved, &rot, pose.angle.abs() > 1e-3, u * stretch.iter().cloned().fold(0.0, f64::max))
             }
             Case::Frame { which, a, la, angle, roll, lb, origin, degenerate } => frame(*which, a, *la, *angle, *roll, *lb, origin, *degenerate),
             Case::Xyo { a, angle, roll, origin } => xyo(a, *angle, *roll, origin),
@@ -217,7 +232,7 @@ fn svd<const D: usize>(mut cx: Ctx, pts: &[Point<f64, D>], known_rank: usize, we
             if w.is_none() {
                 let v = b.basis_variances();
                 for k in 0..D {
-                    ensure!((v[k] - b.sv[k].powi(2) / n as f64).abs() <= 1e-12 * (1.0 + v[k]), "C19/svd/basis_variances", "basis_variances()[{k}]");
+                    ensure!((v[k] - b.sv[k].powi(2) / n as f64).abs() <= 1e-12 * v[k].abs() + 1e-300, "C19/svd/basis_variances", "basis_variances()[{k}]");
                 }
             }
         }
@@ -303,7 +318,7 @@ fn svd<const D: usize>(mut cx: Ctx, pts: &[Point<f64, D>], known_rank: usize, we
         Weights::Equal(c) => *c != 1.0,
         Weights::None => true,
     };
-    if generic_pose && mean.norm() > 1e-6 && wr {
+    if generic_pose && mean.norm() > 1e-6 * (mag + spread) && wr {
         cx.nontrivial();
     }
     cx.pass()
